@@ -107,7 +107,7 @@ SCENARIOS = {
                      "C11_mul_std", "C11_add_std", "C11_fma_std", "C11_div_std", "C11_sqrt_std", "C11_cover_dot_scalar", "C11_cover_dot_sse", "C11_cover_dot_avx", "C11_cover_euclid_scalar", "C11_cover_euclid_sse",
                      "C11_cover_euclid_avx", "C11_dispatch", "C11_symm", "C11_self_zero_euclid", "C11_self_zero_manhattan",
                      "C11_cosine_range", "C11_round", "C11_round_simd"],
-        "quick": [{"name": "kernels", "args": ["kernels", "--seed", "{seed}"]}, hist("c11", 25, extra=T1)],
+        "quick": [{"name": "kernels", "args": ["kernels", "--seed", "{seed}"]}, hist("c11", 40, extra=T1)],
         "thorough": [{"name": "kernels", "args": ["kernels", "--seed", "{seed}", "--tier", "thorough"], "timeout": 3000},
                      hist("c11", 500, "thorough", extra=T1)],
         # end to end: the distances a query reports (C03/C02 predicates on the answers of the c11 histories)
